@@ -123,6 +123,7 @@ func (s *RelationshipPatternVisitor) EnterOC_RangeLiteral(ctx *parser.OC_RangeLi
 
 			case TokenTypeRange:
 				state = stateSecondIndex
+				s.RelationshipPattern.Range.EndIndex = nil
 
 			default:
 				s.ctx.AddErrors(fmt.Errorf("unexpected token in pattern range: %s", typedTokenLeaf.GetText()))
@@ -135,6 +136,11 @@ func (s *RelationshipPatternVisitor) EnterOC_RangeLiteral(ctx *parser.OC_RangeLi
 				switch state {
 				case stateFirstIndex:
 					s.RelationshipPattern.Range.StartIndex = &value
+
+					// A single bound without a range token is an exact hop count: [*3] is [*3..3]. If a
+					// range token follows, the upper bound is reset below.
+					exactValue := value
+					s.RelationshipPattern.Range.EndIndex = &exactValue
 
 				case stateSecondIndex:
 					s.RelationshipPattern.Range.EndIndex = &value
